@@ -37,7 +37,7 @@ var (
 )
 
 func newMailbox(ctx context.Context, advertiseAddress string, codec vivid.Codec, envelopHandler NetworkEnvelopHandler, actorLiaison vivid.ActorLiaison, remotingServerRef vivid.ActorRef, eventStream vivid.EventStream, options vivid.ActorSystemRemotingOptions) *Mailbox {
-	return &Mailbox{
+	m := &Mailbox{
 		ctx:               ctx,
 		options:           options,
 		advertiseAddress:  advertiseAddress,
@@ -49,6 +49,8 @@ func newMailbox(ctx context.Context, advertiseAddress string, codec vivid.Codec,
 		eventStream:       eventStream,
 		backoff:           utils.NewExponentialBackoffWithDefault(100*time.Millisecond, 3*time.Second),
 	}
+	m.drained = sync.NewCond(&m.pendingLock)
+	return m
 }
 
 type Mailbox struct {
@@ -64,6 +66,10 @@ type Mailbox struct {
 	codec             vivid.Codec
 	eventStream       vivid.EventStream
 	backoff           *utils.ExponentialBackoff
+	pendingLock       sync.Mutex
+	pending           []vivid.Envelop // 待发送队列，由 pendingLock 保护
+	sending           bool            // 发送协程是否在运行，由 pendingLock 保护
+	drained           *sync.Cond      // 发送协程退出（队列清空）时广播
 }
 
 func (m *Mailbox) Pause() {
@@ -78,13 +84,71 @@ func (m *Mailbox) IsPaused() bool {
 	return false
 }
 
+// Enqueue 将消息放入该远程地址的待发送队列后立即返回，不会阻塞调用方（Tell 的文档约定其永不阻塞）。
+//
+// 建立连接、重连退避与写入由该邮箱唯一的发送协程按入队顺序完成：调用方（通常是正在处理消息的 Actor）
+// 不会因对端不可达而在重连退避中休眠数秒乃至数十秒，同一目标地址上的消息顺序保持不变。
 func (m *Mailbox) Enqueue(envelop vivid.Envelop) {
+	m.pendingLock.Lock()
+	m.pending = append(m.pending, envelop)
+	if m.sending {
+		m.pendingLock.Unlock()
+		return
+	}
+	m.sending = true
+	m.pendingLock.Unlock()
+	go m.drain()
+}
+
+// drain 是发送协程：按入队顺序逐个发送，队列清空后退出。
+func (m *Mailbox) drain() {
+	for {
+		m.pendingLock.Lock()
+		if len(m.pending) == 0 {
+			m.pending = nil
+			m.sending = false
+			m.drained.Broadcast()
+			m.pendingLock.Unlock()
+			return
+		}
+		envelop := m.pending[0]
+		m.pending[0] = nil
+		m.pending = m.pending[1:]
+		m.pendingLock.Unlock()
+
+		if m.send(envelop) {
+			continue
+		}
+		// 重试耗尽说明对端当前不可达：在此期间积压的消息同样无法送达，直接按发送失败处理，
+		// 否则每条积压消息都要再经历一轮完整的重连退避，对端长期不可达时队列会无限增长
+		m.pendingLock.Lock()
+		failed := m.pending
+		m.pending = nil
+		m.pendingLock.Unlock()
+		for _, envelop := range failed {
+			m.envelopHandler.HandleFailedRemotingEnvelop(envelop)
+		}
+	}
+}
+
+// flush 等待待发送队列清空（由 MailboxCentral.Close 在关闭连接前调用，使停止前已 Tell 的消息仍能写入健康的连接）。
+func (m *Mailbox) flush() {
+	m.pendingLock.Lock()
+	for m.sending {
+		m.drained.Wait()
+	}
+	m.pendingLock.Unlock()
+}
+
+// send 发送一条消息（含建立连接与重连退避），返回 false 表示重试耗尽、对端不可达。
+func (m *Mailbox) send(envelop vivid.Envelop) (reachable bool) {
 	m.connectionLock.Lock()
 	defer m.connectionLock.Unlock()
 
 	limit := sugar.Max(m.options.ReconnectLimit, 0)
-	_, err := m.backoff.Try(limit, func() (abort bool, err error) {
-		if m.ctx.Err() != nil {
+	aborted, err := m.backoff.Try(limit, func() (abort bool, err error) {
+		// 系统停止后不再建立新连接；已建立的健康连接仍可写入（停止前已 Tell 的消息）
+		if m.ctx.Err() != nil && (m.connection == nil || m.connection.Closed()) {
 			return true, vivid.ErrorActorSystemStopped.With(m.ctx.Err())
 		}
 
@@ -118,6 +182,8 @@ func (m *Mailbox) Enqueue(envelop vivid.Envelop) {
 	if err != nil {
 		m.envelopHandler.HandleFailedRemotingEnvelop(envelop)
 	}
+	// 主动中止（编码失败只与该消息本身有关、系统停止）不代表对端不可达，只有重试耗尽才是
+	return err == nil || aborted
 }
 
 // getOrCreateConnection 在 singleflight 内获取或创建 TCP 连接，调用方需已持 connectionLock。
